@@ -25,7 +25,12 @@ CHECKS = {
     "C03": dict(tests=[rapid("storeprops", "TestC03Store", 24000, 1600000, qs=8, replay="TestC03StoreReplay")]),
     "C08": dict(tests=[rapid("storeprops", "TestC08", 16000, 1600000, qs=8)]),
     "C09": dict(tests=[rapid("storeprops", "TestC09", 24000, 1600000, qs=8)]),
+    "C10": dict(tests=[rapid("storeprops", "TestC10", 4000, 320000, qs=8)]),
     "C11": dict(tests=[rapid("storeprops", "TestC11", 24000, 1600000, qs=8)]),
+    "C18": dict(tests=[
+        rapid("storeprops", "TestC18Outputs", 8000, 800000, qs=4, replay="TestC18OutputsReplay"),
+        rapid("storeprops", "TestC18Stores", 8000, 800000, qs=4, replay="TestC18StoresReplay"),
+    ]),
     "C13": dict(tests=[
         loop("pure", "TestC13SegExhaustive", qs=4, ts=8, replay="TestC13SegReplay"),
         rapid("pure", "TestC13SegRandom", 20000, 4000000, qs=2, replay="TestC13SegRandomReplay"),
